@@ -20,9 +20,12 @@
 from __future__ import annotations
 
 from collections.abc import Mapping
+from numbers import Number
+from typing import Any
 from typing import Union
 
 from numpy import asarray
+from numpy import ndarray
 from numpy.linalg import norm
 from scipy.sparse.linalg import norm as spnorm
 
@@ -35,6 +38,21 @@ DataToCompare = Union[
     Mapping[str, SparseOrDenseRealArray],
     Mapping[str, Mapping[str, SparseOrDenseRealArray]],
 ]
+
+
+def _has_norm(value: Any) -> bool:
+    """Check if the distance between two values like this one can be measured by a norm.
+
+    Args:
+        value: The value.
+
+    Returns:
+        Whether the value is a number, a numeric NumPy array or a SciPy sparse matrix.
+    """
+    if isinstance(value, ndarray):
+        return value.dtype.kind in "iufc"
+
+    return isinstance(value, (Number, *sparse_classes))
 
 
 def compare_dict_of_arrays(
@@ -54,6 +72,8 @@ def compare_dict_of_arrays(
             any key ``reference_name`` of ``reference_dict_of_arrays``,
             ``norm(dict_of_arrays[name] - reference_dict_of_arrays[name])
             /(1 + norm(reference_dict_of_arrays)) <= tolerance``.
+            The values that are not numeric, e.g. strings,
+            are compared without tolerance.
 
     Returns:
         Whether the dictionaries are equal.
@@ -77,6 +97,13 @@ def compare_dict_of_arrays(
                 and other_value.shape not in (value.shape, (1, *value.shape))
             ):
                 return False
+
+            if not (_has_norm(value) and _has_norm(other_value)):
+                # There is no norm for non-numeric data, e.g. strings:
+                # these data are close if and only if they are equal.
+                if asarray(other_value != value).any():
+                    return False
+                continue
 
             difference = other_value - value
 
